@@ -3,6 +3,7 @@ import csv, io, math, os, tempfile
 import numpy as np
 from hypothesis import strategies as st
 
+from ..fuzz import fuzzed, CHEAP_MODULES
 from ..core import Obligation, Out
 from .. import cat, allsolvers
 from ..strat import uni
@@ -226,3 +227,5 @@ OBLIGATIONS = [
     Obligation('call-return-contract-slow-classes', contract_case(include_slow=True), check_contract, quick=0, thorough=400),
     Obligation('constructor-contract', ctor_case(), check_ctor, quick=500, thorough=5000),
 ]
+# coverage-guided supplement (atheris / libFuzzer over the same strategy and oracle; see vp/fuzz.py)
+OBLIGATIONS.append(fuzzed([o for o in OBLIGATIONS if o.name == 'constructor-contract'][0], quick=0, thorough=30000, modules=CHEAP_MODULES))
